@@ -356,6 +356,31 @@ func childWire(b run.Batch, r *ev.Result) {
 			x.bits[slot/8] |= 1 << (slot % 8)
 		}
 	}
+	// "changing any bit of a key makes verification fail" - also in a process in which a server has
+	// authorized, loaded and used that key (whatever the server may have taught the verifier about it)
+	keyFlipsAfterUse := func(k refenc.Key, what string) {
+		msg := []byte(fmt.Sprintf("message for %s %d", what, rng.Int63()))
+		sig := refenc.Sign(k.Priv, msg)
+		r.Eval(1)
+		if !glow.Verify(glow.PublicKey(k.Pub), msg, glow.Signature(sig)) {
+			r.Violationf("valid-signature-refused-after-key-was-used-by-server", map[string]interface{}{"key": hx(k.Pub[:]), "role": what}, "a valid signature by the %s key does not verify in the process that hosts the server", what)
+			return
+		}
+		for bit := 0; bit < 256; bit++ {
+			var p glow.PublicKey
+			copy(p[:], flip(k.Pub[:], bit))
+			r.Eval(1)
+			r.Count("flip.key_after_server_use", 1)
+			if glow.Verify(p, msg, glow.Signature(sig)) {
+				r.Violationf("verify-accepts-flipped-key-after-server-use", map[string]interface{}{"key": hx(k.Pub[:]), "bit": bit, "role": what},
+					"after the server authorized/used the %s key, a signature by it verifies under that key with bit %d flipped", what, bit)
+				return
+			}
+		}
+	}
+	keyFlipsAfterUse(x.dev.Key, "equipment")
+	keyFlipsAfterUse(w.GCA, "GCA")
+	keyFlipsAfterUse(w.Key, "server")
 	c, cdir, err := x.newClient()
 	if err != nil {
 		r.Inconc("client start: " + err.Error())
